@@ -772,6 +772,13 @@ func ForC01(thorough bool) []Family {
 			NestedLists("person", []int{0, 1, 2, 3}),
 			NestedLists("nest3", []int{0, 1, 2, 3}),
 			NestedLists("readme", []int{0, 1, 2, 3}),
+			ValueSweep("nest16", false),
+			ValueSweep("nestrep", false),
+			StructureExhaustive("nest16", 3, 2, true, 40),
+			StructureExhaustive("nestrep", 3, 2, true, 60),
+			LongRuns("nest16", []int{8, 9, 17}, false),
+			LongRuns("nestrep", []int{8, 9, 17}, false),
+			NestedLists("nestrep", []int{0, 1, 2, 3}),
 		}
 	}
 	long := []int{7, 8, 9, 63, 64, 65, 503, 504, 505, 511, 512, 513, 1000, 1024, 4097, 8191, 8192, 8193, 65537}
@@ -816,6 +823,13 @@ func ForC01(thorough bool) []Family {
 		NestedLists("person", []int{0, 1, 2, 3, 4, 9}),
 		NestedLists("nest3", []int{0, 1, 2, 3, 4, 9}),
 		NestedLists("readme", []int{0, 1, 2, 3, 4, 9}),
+		ValueSweep("nest16", true),
+		ValueSweep("nestrep", true),
+		StructureExhaustive("nest16", 4, 2, true, 150),
+		StructureExhaustive("nestrep", 4, 2, true, 150),
+		LongRuns("nest16", []int{8, 9, 17, 504, 505, 1001}, false),
+		LongRuns("nestrep", []int{8, 9, 17, 504, 505, 1001}, false),
+		NestedLists("nestrep", []int{0, 1, 2, 3, 4, 9}),
 	}
 }
 
@@ -862,6 +876,10 @@ func ForC03(thorough bool) []Family {
 			MidRange("mini", 1100),
 			LongRuns("flat3", []int{504, 505, 1001}, false),
 			LongRuns("document", []int{8, 9, 505}, false),
+			StructureExhaustive("nest16", 3, 2, true, 60),
+			StructureExhaustive("nestrep", 3, 2, true, 100),
+			NestedLists("nestrep", []int{0, 1, 2, 3}),
+			LongRuns("nestrep", []int{8, 9, 505}, false),
 		}
 	}
 	return []Family{
@@ -884,6 +902,10 @@ func ForC03(thorough bool) []Family {
 		LongRuns("flat3", []int{504, 505, 1001, 4097, 8192, 8193}, false),
 		LongRuns("document", []int{8, 9, 504, 505, 1001}, false),
 		LongRuns("repetition", []int{8, 9, 505}, false),
+		StructureExhaustive("nest16", 4, 2, true, 200),
+		StructureExhaustive("nestrep", 4, 2, true, 300),
+		NestedLists("nestrep", []int{0, 1, 2, 3, 4, 9}),
+		LongRuns("nestrep", []int{8, 9, 504, 505, 1001}, false),
 	}
 }
 
